@@ -642,10 +642,22 @@ func (m *modelCtx) evalHedge(n *Node, p *PolicySpec) mres {
 		return mres{}
 	}
 	// the returned result is one an attempt produced
+	found, ok, verdict, first := false, true, false, true
 	for i, ch := range n.Children {
 		if ch.Exit != nil && ch.Exit.Seq < n.Exit.Seq && sameOutcome(n.Exit.Val, n.Exit.Err, ch.Exit.Val, ch.Exit.Err) {
-			return mres{ok: kids[i].ok, verdict: kids[i].verdict}
+			found = true
+			if !kids[i].ok {
+				ok = false
+			}
+			if first {
+				verdict, first = kids[i].verdict, false
+			} else if kids[i].verdict != verdict {
+				ok = false // two attempts produced the returned outcome with different verdicts: which one won is not observable
+			}
 		}
+	}
+	if found {
+		return mres{ok: ok, verdict: verdict}
 	}
 	m.fail("hedge.result", "not-produced", fmt.Sprintf("hedge policy at position %d returned %s, which none of its %d attempts had produced", n.Pos, outcomeStr(n.Exit), len(n.Children)))
 	return mres{}
